@@ -21,7 +21,7 @@ HARNESS = os.path.join(HERE, "..", "harness", "embed_c13.c")
 sys.path.insert(0, os.path.join(HERE, "..", "harness"))
 import workloads_c13 as WL
 import scenarios_c13 as SC
-from gen import c13_statics
+from gen import c13_statics, c13_imports
 
 # hook-less ThreadSanitizer build: the verification hooks keep process-wide counters of their own (verif_alloc_no,
 # verif_in_gc ...) which race by design; C13 is about the product code, so both of its builds are hook-less.
@@ -58,13 +58,31 @@ def _run(emb, d, mode, spec_text, name, extra_args=(), timeout=900, tsan=False):
     if tsan:
         extra["TSAN_OPTIONS"] = "exitcode=0 halt_on_error=0 second_deadlock_stack=1 history_size=4"
     cmd = [emb, mode, path] + list(extra_args)
-    try:
-        r = subprocess.run(cmd, capture_output=True, text=True, errors="replace", env=_env(d, extra), timeout=timeout)
-        rc, out, err = r.returncode, r.stdout, r.stderr
-    except subprocess.TimeoutExpired as e:
-        rc, out, err = "timeout", (e.stdout or b"").decode("utf8", "replace") if isinstance(e.stdout, bytes) else (e.stdout or ""), "timeout after %ds" % timeout
+    rc, out, err = _run_group(cmd, _env(d, extra), timeout)
     replay = "CHIBI_IGNORE_SYSTEM_PATH=1 CHIBI_MODULE_PATH=%s/lib LD_LIBRARY_PATH=%s %s" % (d, d, " ".join(shlex.quote(c) for c in cmd))
     return rc, out, err, replay
+
+
+def _run_group(cmd, env, timeout, stdin=None):
+    """run cmd in a process group of its own; on exit or timeout kill whatever is left of the group (exports such as
+    process->string fork children that outlive the harness process and keep forking: round-4 observation)"""
+    import signal
+    p = subprocess.Popen(cmd, stdout=subprocess.PIPE, stderr=subprocess.PIPE, stdin=stdin, env=env, start_new_session=True)
+    try:
+        out, err = p.communicate(timeout=timeout)
+        rc = p.returncode
+    except subprocess.TimeoutExpired:
+        try:
+            os.killpg(p.pid, signal.SIGKILL)
+        except OSError:
+            pass
+        out, err = p.communicate()
+        rc, err = "timeout", err + ("timeout after %ds" % timeout).encode()
+    try:
+        os.killpg(p.pid, signal.SIGKILL)      # stragglers of this run only (the group id is the pid of our own child)
+    except OSError:
+        pass
+    return rc, out.decode("utf8", "replace"), err.decode("utf8", "replace")
 
 
 def _parse_R(out):
@@ -139,11 +157,7 @@ def _ops(emb, d, script, name, timeout=120, tsan=False):
     with open(path, "w") as fh:
         fh.write(script)
     cmd = [emb, "ops", path, os.path.join(_specdir(), name + ".cap")]
-    try:
-        r = subprocess.run(cmd, capture_output=True, text=True, errors="replace", env=_env(d), timeout=timeout, stdin=subprocess.DEVNULL)
-        rc, out, err = r.returncode, r.stdout, r.stderr
-    except subprocess.TimeoutExpired as e:
-        rc, out, err = "timeout", (e.stdout or b"").decode("utf8", "replace") if isinstance(e.stdout, bytes) else (e.stdout or ""), "timeout after %ds" % timeout
+    rc, out, err = _run_group(cmd, _env(d), timeout, stdin=subprocess.DEVNULL)
     replay = "CHIBI_IGNORE_SYSTEM_PATH=1 CHIBI_MODULE_PATH=%s/lib LD_LIBRARY_PATH=%s %s </dev/null" % (d, d, " ".join(shlex.quote(c) for c in cmd))
     return rc, out, err, replay
 
@@ -433,6 +447,190 @@ def _diffsearch(ctx, emb, d, libs, why, embt=None, dt=None):
     return found
 
 
+
+# ------------------------------------------------------------------ round 4: libc imports, creation sites, library-call stream
+
+def _parse_libc_allow():
+    base = os.path.join(HERE, "..", "coq", "C13")
+    strip = lambda t: re.sub(r"\(\*.*?\*\)", "", t, flags=re.S)
+    lst = r"\[((?:\s*\"[^\"]*\"\s*;?)*)\s*\]"
+    al = strip(open(os.path.join(base, "AllowedLibc.v")).read())
+    tb = strip(open(os.path.join(base, "Libc.v")).read())
+    unsafe = {m.group(1): m.group(2) for m in re.finditer(r'mk_unsafe\s+"([^"]+)"\s+\w+\s+\w+\s+"([^"]*)"', tb)}
+    ia = {}
+    for m in re.finditer(r'mk_iallow\s+(core|"[^"]*")\s+"([^"]*)"\s+' + lst, al):
+        lib = "libchibi-scheme.so" if m.group(1) == "core" else m.group(1).strip('"')
+        ia[(lib, m.group(2))] = re.findall(r'"([^"]*)"', m.group(3))
+    sa = {(m.group(1), m.group(2), m.group(3)) for m in re.finditer(r'mk_sallow\s+"([^"]*)"\s+"([^"]*)"\s+"([^"]*)"', al)}
+    return unsafe, ia, sa
+
+
+def _diagnose_libc(imps, sts):
+    """which imports / creation sites the reviewed lists do not cover (mirror of Libc.check_import / check_site; the Coq
+    obligations are the authority, this names the culprit)"""
+    unsafe, ia, sa = _parse_libc_allow()
+    probs = []
+    for r in imps:
+        if r["sym"] not in unsafe:
+            continue
+        where = "%s imports %s [%s]" % (r["lib"], r["sym"], unsafe[r["sym"]])
+        a = ia.get((r["lib"], r["sym"]))
+        if a is None:
+            probs.append(dict(kind="import", lib=r["lib"], sym=r["sym"], callers=r["callers"],
+                              problem=where + ", called by %s: not on the reviewed list of this shared object" % r["callers"]))
+        elif [c for c in r["callers"] if c not in a] or not r["callers"]:
+            probs.append(dict(kind="import", lib=r["lib"], sym=r["sym"], callers=r["callers"],
+                              problem=where + ": referenced by function(s) the reviewed entry does not name: %s" % [c for c in r["callers"] if c not in a]))
+    for t in sts:
+        key = (t["file"], t["form"], t["kind"])
+        if t["kind"] == "open-flags":
+            if "open/exclusive" in t["flags"]:
+                continue
+            if t["generated"]:
+                probs.append(dict(kind="site", file=t["file"], form=t["form"], problem="%s (%s): a file whose name is derived from process id / clock is created with flags %s, "
+                                  "without open/exclusive: two contexts of one process derive the same name and share the file" % (t["file"], t["form"], t["flags"])))
+            elif key not in sa:
+                probs.append(dict(kind="site", file=t["file"], form=t["form"], problem="%s (%s): new non-exclusive creation site, flags %s" % (t["file"], t["form"], t["flags"])))
+        elif key not in sa:
+            probs.append(dict(kind="site", file=t["file"], form=t["form"], problem="%s (%s): %s on a generated name, not reviewed" % (t["file"], t["form"], t["kind"])))
+    return probs
+
+
+# shared object -> library-call template that exercises it (a suspect import there triples that template's volume)
+LC_FOR_SO = {"lib/chibi/time.so": "libc-time", "lib/scheme/time.so": "libc-time", "lib/chibi/system.so": "libc-system",
+             "lib/chibi/filesystem.so": "libc-filesystem", "lib/chibi/ast.so": "libc-errno-math-env", "lib/srfi/144/math.so": "libc-errno-math-env",
+             "lib/srfi/98/env.so": "libc-errno-math-env"}
+
+
+def _lc_sig(name, expected, observed):
+    if name != "ns-temp-file":
+        return "libcall:%s:foreign-result" % name
+    m = re.search(r"temp-dirs \((.*)\)\)$", observed)
+    if re.search(r"read-back-at-(once|end) \([^)]", observed):
+        return "namespace:temp-file:foreign-data"
+    if "scratch-files ((raised" in observed:
+        return "namespace:temp-file:raised"
+    if m and m.group(1):
+        return "namespace:temp-dir:raised"
+    return "namespace:temp-file:result-differs"
+
+
+def _libcalls(ctx, emb, d, boost):
+    """(E, round 4) the same library call with context-specific arguments on N OS threads (loops started together by the
+    harness's (c13-barrier)); each context's result == the result of the same program alone in its own process"""
+    import pwd, grp
+    from concurrent.futures import ThreadPoolExecutor
+    rng = ctx.rng
+    base = os.path.join(_specdir(), "lcdirs")
+    dirs = []
+    for k in range(16):
+        p = os.path.join(base, "d%02d" % k)
+        os.makedirs(p, exist_ok=True)
+        dirs.append(p)
+        for j in range(8 + 2 * k):
+            fp = os.path.join(p, "ctx%02d-file%02d" % (k, j))
+            if not os.path.exists(fp):
+                open(fp, "w").write("x" * (k * 100 + j))
+    uids = sorted({p.pw_uid for p in pwd.getpwall()}) or [0]
+    gids = sorted({g.gr_gid for g in grp.getgrall()}) or [0]
+    env = dict(uids=uids, gids=gids, dirs=dirs, token="c13-%06d" % rng.randrange(10 ** 6))
+    total = 0
+    for tmpl in WL.LIBCALLS:
+        T = (6 if tmpl in (WL.lc_time, WL.lc_tempfile) else 4) if not ctx.thorough else rng.choice([8, 12, 16])
+        reps = 2 if not ctx.thorough else 3
+        probe_name = tmpl(__import__("random").Random(0), 0, 1, env)[0]
+        scale = (1 if not ctx.thorough else 3) * (3 if probe_name in boost else 1)
+        if probe_name in boost:
+            reps += 2
+        env["threads"] = T
+        wl = WL.make_libcalls(rng, tmpl, T, scale, env)
+        name = wl[0][0]
+        works = {i: t for i, (n, t) in enumerate(wl)}
+        with ThreadPoolExecutor(4) as ex:
+            futs = {i: ex.submit(_run, emb, d, "run", _spec_text(works, [(0, 0, [i])]), "lc-%s-base%d" % (name, i), (), 120) for i in works}
+        alone = {}
+        for i in works:
+            rc, out, err, rp = futs[i].result()
+            R = _parse_R(out)
+            if rc != 0 or (0, 0) not in R or R[(0, 0)][3].startswith("ERR:"):
+                ctx.broken("baseline:" + name, "library-call workload does not run alone: rc=%s %s %s" % (rc, R.get((0, 0), ("", "", "", ""))[3][:200], err[-200:]), replay=rp)
+                continue
+            alone[i] = R[(0, 0)][3]
+        if len(alone) < len(works):
+            continue
+        if name == "ns-temp-file" and any("(raised" in v or "#f" in v for v in alone.values()):
+            ctx.broken("baseline:" + name, "temp-file workload fails alone: %s" % list(alone.values())[:1])
+            continue
+        th = [(rng.choice([0, 0, 1 << 20]), 0, [i]) for i in works]
+        spec = _spec_text(works, th)
+        failed = False
+        for rep in range(reps):
+            rc, out, err, rp = _run(emb, d, "run", spec, "lc-%s-conc%d" % (name, rep), timeout=180 if not ctx.thorough else 600)
+            R = _parse_R(out)
+            if rc != 0:
+                ctx.violation("%s:libcall:%s" % ("hang" if rc == "timeout" else "crash", name), input=spec[:3000], expected="exit 0", observed="rc=%s %s" % (rc, err[-400:]), replay=rp, spec=spec)
+                failed = True
+                break
+            for t, i in enumerate(works):
+                got = R.get((t, 0), (0, "missing", "", "MISSING"))
+                ctx.count(1, key=("libcall", name, rep, works[i]), nontrivial=True)
+                total += 1
+                if got[1] != "ok":
+                    ctx.violation("heap-not-closed:libcall:%s" % name, input=works[i], expected="ok", observed=got[1], threads=T, replay=rp, spec=spec)
+                    failed = True
+                if got[3] != alone[i]:
+                    ctx.violation(_lc_sig(name, alone[i], got[3]), input="%d OS threads, one parent-less context each, same library calls with context-specific arguments; context %d evaluates: %s" % (T, t, works[i][:1500]),
+                                  expected="as alone in its own process: " + alone[i][:700], observed=got[3][:900], threads=T, thread=t, replay=rp, spec=spec)
+                    failed = True
+                else:
+                    ctx.cov["traces_validated_against_impl"] += 1
+            if failed:
+                break
+        if name == "ns-temp-file":
+            import glob, shutil
+            for f in glob.glob("/tmp/%s*" % env["token"]):      # files a failed / killed run left behind
+                try:
+                    shutil.rmtree(f) if os.path.isdir(f) and not os.path.islink(f) else os.unlink(f)
+                except OSError:
+                    pass
+        if tmpl is WL.LIBCALLS[0]:
+            ctx.sample(dict(kind="libcall", template=name, threads=T, workload=works[0][:400], alone_result=alone[0][:300]))
+    ctx.note("library-call stream: %d context runs (templates %s; N OS threads start their loops together; per argument the list of DISTINCT results must equal "
+             "the single-process result; temp files / temp dirs from ONE template shared by all contexts must read back their owner's data)" % (total, [t.__name__ for t in WL.LIBCALLS]))
+
+
+
+def _nsprobe(ctx, d):
+    """(F, round 4) deterministic lost-creation-race probe (harness/ns_probe_c13.scm) in a single context"""
+    tdir = os.path.join(_specdir(), "nstargets")
+    os.makedirs(tdir, exist_ok=True)
+    src = open(os.path.join(HERE, "..", "harness", "ns_probe_c13.scm")).read()
+    path = os.path.join(_specdir(), "ns_probe.scm")
+    open(path, "w").write(src.replace("TOKEN", "%06d" % ctx.rng.randrange(10 ** 6)).replace("TARGETDIR", tdir))
+    rp = "CHIBI_IGNORE_SYSTEM_PATH=1 CHIBI_MODULE_PATH=%s/lib LD_LIBRARY_PATH=%s %s/chibi-scheme %s" % (d, d, d, path)
+    try:
+        r = B.run_chibi(d, [path], timeout=120)
+        out, rc = r.stdout.strip(), r.returncode
+    except subprocess.TimeoutExpired:
+        out, rc = "", "timeout"
+    want = "(temp-file (fresh-name #t) foreign-targets-created 0 temp-dir (fresh-name #t) foreign-targets-created 0)"
+    ctx.count(2, key=("nsprobe", "dangling-link-at-first-candidate"), nontrivial=True)
+    if out == want:
+        ctx.cov["traces_validated_against_impl"] += 2
+        return
+    m = re.match(r"\(temp-file (\(.*?\)) foreign-targets-created (\d+) temp-dir (\(.*?\)) foreign-targets-created (\d+)\)$", out)
+    if not m:
+        ctx.broken("nsprobe", "probe program did not complete: rc=%s %s" % (rc, out[-300:]), replay=rp)
+        return
+    for what, res, nt in (("temp-file", m.group(1), m.group(2)), ("temp-dir", m.group(3), m.group(4))):
+        if res == "(fresh-name #t)" and nt == "0":
+            continue
+        sig = "namespace:%s:%s" % (what, "raised-on-lost-race" if res.startswith("(raised") else "created-through-foreign-name")
+        ctx.violation(sig, input="call-with-%s while the first candidate name /tmp/<template>-<pid>-<second>-0 is a dangling symbolic link (= the view of a context that lost the creation race: "
+                      "stat says absent, atomic creation says EEXIST)" % what, expected="(fresh-name #t), no file created at the link's target (coq/C13/Ns.v: Opening i fails -> Testing (i+1))",
+                      observed="%s, %s file(s) created at link targets" % (res, nt), replay=rp, script=open(path).read())
+
+
 # ------------------------------------------------------------------ the check
 
 def run(ctx):
@@ -449,14 +647,27 @@ def run(ctx):
                        "scenarios (one case per install / ignore / raise / run / destroy of a random history, every live context's pending mask and "
                        "handler log compared with the extracted model) and table scenarios (one case per type registration / intern / define / "
                        "import / destroy of an interleaving of 2-6 contexts, every live context's tables dumped and compared with the extracted "
-                       "model and with the context running alone)")
+                       "model and with the context running alone); plus (round 4) the library-call stream: one case per context run of N OS threads calling the same "
+                       "C-backed library procedures ((chibi time system filesystem ast temp-file), srfi 144 / 98) with context-specific arguments, loops started "
+                       "together, per argument the list of distinct results compared with the single-process run; and the deterministic lost-creation-race probe")
     d = ctx.build("nohooks")
     # ---------------------------------------------------------------- (G) inventory + (T) theorems
     table, stats, sos = c13_statics.regen(ctx, d)
     ctx.note("inventory: %d writable objects in %d shared objects (%d instructions scanned, %d data references attributed)" %
              (len(table), len(sos), stats["insns"], stats["refs"]))
     probs = _diagnose(table)
+    imps, sts = c13_imports.regen(ctx, d)
+    lprobs = _diagnose_libc(imps, sts)
+    ctx.note("imports: %d undefined dynamic symbols over %d shared objects, %d of them on the not-thread-safe / process-attribute table; %d creation sites in the Scheme libraries" %
+             (len(imps), len(sos), sum(1 for r in imps if r["callers"]), len(sts)))
     coq_ok = ctx.coq_obligations("Properties_C13")
+    if lprobs:
+        for u in ctx.unproved:
+            if u["name"] == "Properties_C13":
+                u["libc_import_or_creation_site_problems"] = lprobs[:20]
+        if coq_ok:
+            ctx.broken("libc-inventory-diagnosis", "python replica of the import / creation-site check disagrees with Coq: %s" % lprobs[:3])
+        ctx.note("import / creation-site lists not covering the build: %s" % json.dumps(lprobs[:10]))
     if probs:
         # the generated obligation is the authority; this only says which static/function broke it
         for u in ctx.unproved:
@@ -477,11 +688,18 @@ def run(ctx):
                "no failing heap-image load/save (static message buffer gc_heap.c:10); the executable main.c is not part of the claim")
     ctx.assume("of what the operating system shares between threads of one process, stdio streams / file descriptors and dlopen "
                "references are inside the claim (model coq/C13/Res.v, ownership = the port's no_close flag); cwd, environment "
-               "variables, signal dispositions and the C library's own state stay outside")
+               "variables and signal dispositions stay outside; the C library's own state is inside as far as the import inventory goes (round 4: no shared "
+               "object of the build imports a function of the not-thread-safe table coq/C13/Libc.v without a reviewed entry); names in the file system "
+               "derived from pid + clock are inside (atomic creation; model coq/C13/Ns.v)")
+    ctx.trust("coq/C13/Libc.v mt_unsafe: transcription of the MT-Unsafe annotations of glibc's manual / man-pages attributes(7) and of the POSIX.1-2017 2.9.1 list "
+              "(a function missing from the table is invisible to the import obligation); gen/c13_imports.py: nm -D / objdump -d, and a tokenizer-level scan of lib/**/*.scm, *.sld")
 
     # ---------------------------------------------------------------- (K) harness
     emb = B.cc_embed(d, HARNESS, os.path.join(d, "embed_c13"))
     # (K inner, round 2) process-wide OS resources: extracted model vs implementation, operation by operation
+    boost = {LC_FOR_SO.get(pr.get("lib")) for pr in lprobs if pr["kind"] == "import"} | ({"ns-temp-file"} if any(pr["kind"] == "site" for pr in lprobs) else set())
+    _nsprobe(ctx, d)
+    _libcalls(ctx, emb, d, boost - {None})
     exe = ctx.extract("C13")
     if exe is not None:
         _resources(ctx, emb, d, exe)
